@@ -49,7 +49,7 @@ RULE = ("exhaustive: every text over {a,B,space,\\n,(,)} up to the tier's length
         "gq ~) and `<f|F|t|T c> <operator> ;|,` sequences that carry the last character find; a case is non-trivial when some operator changes text, cursor or a register")
 EXHAUSTIVE = True
 EXHAUSTIVE_SCOPE = {"quick": "alphabet {a,B,space,\\n,(,)}: len<=1 full product operators x motions x counts; len 2 all motions x d, 10 rotating motions per other operator; len 3 all states, rotating subsets (22 motions x d, 2 per other operator); raw TextObjects over {a,space,\\n} len<=4, all in-range offsets x 3 types",
-                    "thorough": "alphabet {a,B,space,\\n,(,)}: len<=2 full product operators x motions x counts, all cursors; len 3 all motions x d, 20 rotating motions per other operator; len 4 all states, rotating subsets (20 motions x d, 3 per other operator); raw TextObjects len<=5"}
+                    "thorough": "alphabet {a,B,space,\\n,(,)}: len<=1 full product operators x motions x counts, all cursors; len 2 all motions x d, 60 rotating motions per other operator; len 3 all motions x d, 16 rotating motions per other operator; len 4 all states, rotating subsets (16 motions x d, 2 per other operator); raw TextObjects len<=5"}
 TRUSTED = ["harness/c08.py compares text, cursor, clipboard, named registers and insert-mode after every operator",
            "Ptk/Model/C08.lean is a hand translation of vi.py TextObject/operators and the Document queries they use"]
 ASSUMPTIONS = ["CPython str slicing semantics; `re` on the word patterns == maximal class runs (differentially checked)",
@@ -311,7 +311,7 @@ def raw_tos(n, cur):
 
 # per tier: text length -> (number of `d` motion instances, instances per other operator); None = all
 PLAN = {"quick": {0: (None, None), 1: (None, None), 2: (None, 10), 3: (22, 2)},
-        "thorough": {0: (None, None), 1: (None, None), 2: (None, None), 3: (None, 20), 4: (20, 3)}}
+        "thorough": {0: (None, None), 1: (None, None), 2: (None, 60), 3: (None, 16), 4: (16, 2)}}
 
 
 def cases(tier, rng):
@@ -333,7 +333,7 @@ def cases(tier, rng):
             text = "".join(tup)
             for cur in range(n + 1):
                 yield {"k": "raw", "text": text, "cur": cur, "tos": raw_tos(n, cur)}
-    nrand = 1000 if quick else 24000
+    nrand = 1000 if quick else 18000
     for _ in range(nrand):
         text = rand_text(rng)
         cur = rng.choice([0, len(text), rng.randrange(0, len(text) + 1), rng.randrange(0, len(text) + 1)])
